@@ -21,21 +21,21 @@ import time
 from harness import tlc, core
 from harness.tlc import tla
 
-SETS = [1, 2, 3, 7, 9, 16]
+SETS = [1, 2, 3, 7, 9, 16, 18]
 ROW_T = list(range(1, 13))
 Y_T = {6, 7, 8, 10}                      # templates using the decision rule
 OBJ_DET = [21, 22]
 OBJ_ROB = [23, 24, 25, 26]
 XB = 2
 ACTIONS = ['FlipObj', 'MoveObj', 'SwapDecl', 'SwapStmt', 'Respell', 'Rescale', 'SplitEq', 'ArrLoop', 'MoveTerms', 'MoveConst',
-           'RespellBounds', 'RespellSet', 'SwitchFront']
+           'RespellBounds', 'RespellSet', 'RespellSetBounds', 'SwitchFront']
 ALPHABET = dict(Scales={(1, 1), (2, 1), (1, 2), (3, 1)},
                 SetSpellings={'list', 'args', 'tuple', 'gen', 'mixed', 'nested'},
                 BoundSpellings={'arr', 'ent', 'lin', 'inf', 'abs'},
                 Fronts={'ro', 'dro', 'droE'})
 SOLVERS = ('def', 'ort', 'grb')
 SECOND = {'def': 'grb', 'ort': 'def', 'grb': 'def'}
-NCONS = {1: 2, 2: 2, 3: 2, 7: 1, 9: 2, 16: 2}       # Rewrite.NCons
+NCONS = {1: 2, 2: 2, 3: 2, 7: 1, 9: 2, 16: 2, 18: 4}       # Rewrite.NCons
 
 
 # --------------------------------------------------------------------------------------------------
